@@ -82,6 +82,10 @@ type opT struct {
 	E    uint64 `json:"e,omitempty"`
 	Ord  []int  `json:"ord,omitempty"` // resync: enumeration order of the blobs
 	E0   bool   `json:"e0,omitempty"`  // resync: epoch source returns 0 (as neofs-lancet does)
+	// C09: the process dies inside this operation, before (or after) its Cut-th wrapped
+	// component call, and restarts (0 = the operation completes)
+	Cut      int  `json:"cut,omitempty"`
+	CutAfter bool `json:"cut_after,omitempty"`
 }
 
 type history struct {
@@ -185,7 +189,12 @@ type ctl struct {
 	tr    *os.File
 	gate  func(kind, a int, after bool) // optional scheduling gate (race runs)
 	snap  func(n int, after bool)        // optional: snapshot the directories at this crash point
+	// in-process process-death emulation (C09): panic out of the operation
+	opn, cut int
+	cutAfter bool
 }
+
+type cutSentinel struct{}
 
 func (c *ctl) logf(format string, a ...any) {
 	if c.tr != nil {
@@ -204,9 +213,16 @@ func (c *ctl) around(kind int, addr oid.Address, f func() error) error {
 	}
 	c.mu.Lock()
 	c.n++
+	c.opn++
 	n := c.n
+	cutHere := c.cut > 0 && c.opn == c.cut
 	if c.k == n && !c.after {
 		os.Exit(3)
+	}
+	if cutHere && !c.cutAfter {
+		c.cut = 0
+		c.mu.Unlock()
+		panic(cutSentinel{})
 	}
 	if c.snap != nil {
 		c.snap(n, false)
@@ -220,6 +236,11 @@ func (c *ctl) around(kind int, addr oid.Address, f func() error) error {
 	}
 	if c.snap != nil {
 		c.snap(n, true)
+	}
+	if cutHere && c.cutAfter {
+		c.cut = 0
+		c.mu.Unlock()
+		panic(cutSentinel{})
 	}
 	c.mu.Unlock()
 	if c.gate != nil {
@@ -303,10 +324,11 @@ type env struct {
 	c    *ctl
 	uni  []uobj
 	h    history
+	dir  string
 }
 
 func openShard(dir string, h history, c *ctl) (*env, error) {
-	e := &env{ep: &epochSrc{}, c: c, h: h, uni: mkUniverse(h.Objs)}
+	e := &env{ep: &epochSrc{}, c: c, h: h, uni: mkUniverse(h.Objs), dir: dir}
 	c.idx = map[oid.Address]int{}
 	for i := range h.Objs {
 		c.idx[addrOf(i)] = i
